@@ -110,6 +110,7 @@ class GenCfg:
     max_reg_up: int = 0           # measurements may use the registry of an ancestor this many levels up
     durations: List[float] = field(default_factory=lambda: list(DYADIC))
     annot_fields: bool = True     # random integer fields on detectors/observables
+    empty_barrier: bool = False   # also Barrier / CoordinateShift over an empty qubit list (accepted by the library)
     max_total_leaves: int = 60    # bound on unrolled leaf count (keeps relation depth and cost bounded)
     min_sub_items: int = 0
 
@@ -138,7 +139,7 @@ def program_strategy(cfg: GenCfg):
             b = b if b < a else b + 1
             it["q"] = [a, b]
         elif k in ("Barrier", "CoordinateShiftOperation"):
-            qs = draw(st.lists(st.integers(0, nq - 1), min_size=1, max_size=nq, unique=True))
+            qs = draw(st.lists(st.integers(0, nq - 1), min_size=0 if cfg.empty_barrier else 1, max_size=nq, unique=True))
             it["q"] = qs
         else:
             it["q"] = [draw(st.integers(0, nq - 1))]
@@ -298,6 +299,11 @@ def build(program, built: Optional[Built] = None, peek=None) -> Built:
                     peek(decl, p, it)
                 b.passed[p] = child
                 b.handles[p] = decl.add(child)
+                if it.get("srel"):
+                    # the nested block is re-scheduled relative to an earlier item of the same circuit (add() itself only
+                    # sequences a sub-circuit implicitly; the relation of the returned block is assignable)
+                    from qce_circuit.structure.intrf_circuit_operation import RelationLink, RelationType
+                    b.handles[p].relation_link = RelationLink(b.handles[path + (it["srel"][1],)], RelationType[REL[it["srel"][0]]])
             else:
                 if peek is not None:
                     peek(decl, p, it)
